@@ -4,6 +4,7 @@ import IrefVerif.Model.Reference
 import IrefVerif.Findings
 import IrefVerif.Lemmas.ResolveEmpty
 import IrefVerif.Lemmas.ResolveAuth
+import IrefVerif.Lemmas.ResolveRel
 import IrefVerif.Lemmas.IriBytes
 import IrefVerif.Props.Valid
 import IrefVerif.Lemmas.ValidWF
@@ -19,7 +20,7 @@ dot-segment removal is idempotent on segment lists.  `Model.Ref.resolve` transli
 function, and both families share it.  The equation `resolve = recompose ∘ transform` on the
 real crate is the `resolve` oracle (`Oracle.resolve`), with the open finding F15
 (`Findings.f15`) excluded.  For the model it is proved, for every valid base and reference of
-either family (octet level), in three of the five branches of §5.2.2:
+either family (octet level), in all five branches of §5.2.2:
 * the reference has an authority, with or without a scheme (`resolve_with_authority`): the
   model of `remove_dot_segments` — normalisation through the path handle, the trailing `/` of a
   final dot segment, the collapse of a lone shielded empty segment — *is* §5.2.4 with Errata 4547
@@ -30,10 +31,22 @@ either family (octet level), in three of the five branches of §5.2.2:
 * the reference has a scheme and no authority (`resolve_scheme_no_authority`), whenever the
   dot-free path needs no shield (`needsShield`: its first segment is not empty — otherwise the RFC
   text itself would be read differently, `s:/..//a` ↦ `s://a`);
-* absolute-path reference against a base with an authority (`resolve_absolute`).
-PARTIAL: an absolute-path reference against a base without authority, and the relative-path merge
-(where the RFC text can be ambiguous or lossy, and where F15 lives), are judged on the
-implementation only.
+* absolute-path reference against a base with an authority (`resolve_absolute`), and against a
+  base without authority under the same `needsShield` side condition
+  (`resolve_absolute_no_authority`).
+* relative-path reference (§5.2.3 merge, §5.2.4) against a base with an authority, for every
+  pair outside the class of the open finding F15 (`resolve_relative_authority`): the `merged`
+  buffer — `from_scheme`, `set_authority`, the normalised directory of the base, `symbolic_append`,
+  `normalize`, the conditional `clear` — computes `remove_dot_segments(merge(..))`
+  (`Lemmas/SymAppend.lean`: the handle's view, read through its normalised sequence, follows the
+  §5.2.4 stack; `Lemmas/MergeSegs.lean`: merge + remove_dot_segments is that stack walk;
+  `Lemmas/ParentSegs.lean`, `Lemmas/ResolveRel.lean`).
+So for a base with an authority and a reference without scheme the model is the RFC exactly
+outside F15 (`resolve_relative_reference`), which also shows that the class recorded for F15 is
+complete there.
+PARTIAL: the relative-path merge against a base *without* authority (where the RFC text itself
+can turn a relative path into an absolute one), and the inputs excluded by `needsShield`, are
+judged on the implementation only.
 -/
 
 namespace IrefVerif.Props.C06
@@ -103,6 +116,61 @@ theorem resolve_absolute (G : Grammar) (ok : Grammar.Ok G) (okp : Grammar.OkPath
     (hab : (split base).authority = some ab) :
     Model.Ref.resolve r base = some (recompose (resolveSpec base r)) :=
   Lemmas.resolve_absolute G ok okp base r ab hb hr hs ha hp hab
+
+/-- **§5.2.2, fourth branch, base without authority**, whenever the result needs no shield -/
+theorem resolve_absolute_no_authority (G : Grammar) (ok : Grammar.Ok G) (okp : Grammar.OkPath G) (base r : Text)
+    (hb : RE.Matches G.full base) (hr : RE.Matches G.reference r)
+    (hs : (split r).scheme = none) (ha : (split r).authority = none) (hp : isAbs (split r).path = true)
+    (hab : (split base).authority = none) (hns : needsShield false false (split r).path = false) :
+    Model.Ref.resolve r base = some (recompose (resolveSpec base r)) :=
+  Lemmas.resolve_absolute_no_authority G ok okp base r hb hr hs ha hp hab hns
+
+/-- **§5.2.2, fifth branch** (§5.2.3 merge and §5.2.4): a relative-path reference against a base
+with an authority, for every pair outside the class of the open finding F15 -/
+theorem resolve_relative_authority (G : Grammar) (ok : Grammar.Ok G) (okp : Grammar.OkPath G) (base r ab : Text)
+    (hb : RE.Matches G.full base) (hr : RE.Matches G.reference r)
+    (hs : (split r).scheme = none) (ha : (split r).authority = none)
+    (hne : (split r).path ≠ []) (hrl : isAbs (split r).path = false)
+    (hab : (split base).authority = some ab) (hf : Findings.f15 base r = false) :
+    Model.Ref.resolve r base = some (recompose (resolveSpec base r)) := by
+  obtain ⟨_, wB⟩ := split_valid G ok base (RE.Matches.altL hb)
+  have hB := wB.abempty (by simp [hab])
+  exact Lemmas.resolve_relative_authority G ok okp base r ab hb hr hs ha hne hrl hab
+    (Lemmas.noSkip_of_not_f15 base r ab hB hs ha hne hrl hab hf)
+
+/-- **every relative reference against a base with an authority**: outside the F15 class the model
+of `resolve` is RFC 3986 §5.2 -/
+theorem resolve_relative_reference (G : Grammar) (ok : Grammar.Ok G) (okp : Grammar.OkPath G) (base r ab : Text)
+    (hb : RE.Matches G.full base) (hr : RE.Matches G.reference r)
+    (hs : (split r).scheme = none) (hab : (split base).authority = some ab) (hf : Findings.f15 base r = false) :
+    Model.Ref.resolve r base = some (recompose (resolveSpec base r)) := by
+  cases ha : (split r).authority with
+  | some a => exact resolve_with_authority G ok okp base r a hb hr ha
+  | none =>
+    by_cases hp : (split r).path = []
+    · exact resolve_empty_path G ok base r hb hr hs ha hp
+    · by_cases habs : isAbs (split r).path = true
+      · exact resolve_absolute G ok okp base r ab hb hr hs ha habs hab
+      · exact resolve_relative_authority G ok okp base r ab hb hr hs ha hp (by simpa using habs) hab hf
+
+/-- end to end, URI family -/
+theorem uri_resolve_relative_reference (base r ab : Text) (hb8 : ∀ c ∈ base, c < 256) (hr8 : ∀ c ∈ r, c < 256)
+    (hb : accepts .uri base = true) (hr : accepts .uriRef r = true)
+    (hs : (split r).scheme = none) (hab : (split base).authority = some ab) (hf : Findings.f15 base r = false) :
+    Model.Ref.resolve r base = some (recompose (resolveSpec base r)) :=
+  resolve_relative_reference uriG uriG_ok uriG_okPath base r ab (Valid.uri_octets base hb8 hb)
+    (Valid.uriRef_octets r hr8 hr) hs hab hf
+
+/-- … IRI family (octets) -/
+theorem iri_resolve_relative_reference (base r ab : Text) (hb8 : ∀ c ∈ base, c < 256) (hr8 : ∀ c ∈ r, c < 256)
+    (hb : accepts .iri base = true) (hr : accepts .iriRef r = true)
+    (hs : (split r).scheme = none) (hab : (split base).authority = some ab) (hf : Findings.f15 base r = false) :
+    Model.Ref.resolve r base = some (recompose (resolveSpec base r)) :=
+  resolve_relative_reference iriGB iriGB_ok iriGB_okPath base r ab (Valid.iri_octets base hb8 hb)
+    (Valid.iriRef_octets r hr8 hr) hs hab hf
+
+/-- the hypotheses are satisfiable: RFC 3986 §5.4 base and `../g` are outside the F15 class -/
+example : Findings.f15 base54' [0x2E,0x2E,0x2F,0x67] = false := by decide
 
 /-- the side condition of `resolve_scheme_no_authority` holds on ordinary inputs, fails where the
 RFC text is ambiguous -/
